@@ -303,6 +303,12 @@ func checkComposition(g *gen.G, s *sim.Sim, deep bool) {
 			}
 		}
 		if nd.Err != nil {
+			// a Joint-Feldman failure has a documented cause: the disqualified dealers exceeded the threshold (the code also
+			// fails when no more than t dealers stay qualified); a failure with fewer reported dealers than either rule
+			// needs is unexplained (identity keys aside, which the generated dealings cannot produce by sum)
+			if s.Proto == sim.JointFeldman && crypto.IsDKGFailureError(nd.Err) && len(D) <= s.T && s.N-len(D) > s.T && !strings.Contains(nd.Err.Error(), "identity") {
+				g.Fatalf("%v n=%d t=%d: End of honest node %d failed (%v) although it reported only %d dealers as disqualified (%v)\n%s", s.Proto, s.N, s.T, nd.Idx, nd.Err, len(D), D, dkgTrace(s))
+			}
 			continue
 		}
 		var dealers []int
